@@ -323,6 +323,69 @@ static void do_dec (char **w, int n) {
     munge_ctx_destroy (ctx);
 }
 
+/* retry ctxseq <token> ... [env k=v ..]: a sequence of libmunge calls on ONE context, the way applications use it
+ *   e<hex|->  munge_encode of this payload (credential kept in the next slot)      -> e:<err>
+ *   d<k>      munge_decode of slot k                                               -> d:<err>:<payload hex|NULL>:<uid>:<gid>
+ *   x<hex>    munge_decode of this string (anything)                               -> x:<err>
+ *   c         ctx = munge_ctx_copy (ctx), the old one is destroyed                 -> c:<1|0>
+ *   n         the next call is made with a NULL context
+ *   r<hex|->  munge_ctx_set (MUNGE_OPT_REALM)                                      -> r:<err>
+ *   t<n>      munge_ctx_set (MUNGE_OPT_TTL)                                        -> t:<err>
+ *   s         munge_ctx_strerror (ctx) and MUNGE_OPT_SOCKET read back              -> s:<hex of text|NULL>:<1 if socket name intact> */
+static void do_ctxseq (char **w, int n) {
+    munge_ctx_t ctx; char *slots[64]; int ns = 0, i, use_null = 0, first = 1; char **a; int na;
+    for (i = 2; i < n && !strchr (w[i], '='); i++) ;
+    a = w + i; na = n - i; n = i;
+    g_nsched = 0;
+    set_env (a, na);
+    parse_crefuse (a, na);
+    ctx = munge_ctx_create ();
+    munge_ctx_set (ctx, MUNGE_OPT_SOCKET, g_sock);
+    for (i = 2; i < n; i++) {
+        char *t = w[i]; munge_ctx_t c = use_null ? NULL : ctx;
+        if (!first) printf (" ");
+        first = 0;
+        if (t[0] == 'e') {
+            unsigned char *d = NULL; long dl = hx_parse (t + 1, &d); char *cred = NULL; munge_err_t e;
+            if (dl < 0) { printf ("bad-token"); continue; }
+            if (use_null) munge_ctx_set (ctx, MUNGE_OPT_SOCKET, g_sock);
+            begin_op (); e = munge_encode (&cred, use_null ? NULL : ctx, d, (int) dl); end_op ();
+            printf ("e:%d", (int) e);
+            if (ns < 64) slots[ns++] = cred; else free (cred);
+            free (d); use_null = 0;
+        }
+        else if (t[0] == 'd' || t[0] == 'x') {
+            void *buf = NULL; int len = 0; uid_t uid = 7; gid_t gid = 7; munge_err_t e; char *cred = NULL; unsigned char *cb = NULL; long cl;
+            if (t[0] == 'd') { int k = atoi (t + 1); cred = (k >= 0 && k < ns && slots[k]) ? strdup (slots[k]) : strdup (""); }
+            else { cl = hx_parse (t + 1, &cb); if (cl < 0) { printf ("bad-token"); continue; } cred = malloc (cl + 1); memcpy (cred, cb, cl); cred[cl] = 0; free (cb); }
+            begin_op (); e = munge_decode (cred, c, &buf, &len, &uid, &gid); end_op ();
+            if (t[0] == 'd') { printf ("d:%d:", (int) e); if (!buf) printf ("NULL"); else hx_print (buf, len); printf (":%u:%u", (unsigned) uid, (unsigned) gid); }
+            else printf ("x:%d", (int) e);
+            free (buf); free (cred); use_null = 0;
+        }
+        else if (t[0] == 'c') { munge_ctx_t c2 = munge_ctx_copy (ctx); printf ("c:%d", c2 ? 1 : 0); if (c2) { munge_ctx_destroy (ctx); ctx = c2; } }
+        else if (t[0] == 'n') { use_null = 1; printf ("n"); }
+        else if (t[0] == 'r') {
+            unsigned char *d = NULL; long dl = hx_parse (t + 1, &d); char *r;
+            if (dl < 0) { printf ("bad-token"); continue; }
+            r = malloc (dl + 1); memcpy (r, d, dl); r[dl] = 0;
+            printf ("r:%d", (int) munge_ctx_set (ctx, MUNGE_OPT_REALM, dl ? r : NULL));
+            free (r); free (d);
+        }
+        else if (t[0] == 't') printf ("t:%d", (int) munge_ctx_set (ctx, MUNGE_OPT_TTL, atoi (t + 1)));
+        else if (t[0] == 's') {
+            const char *s = munge_ctx_strerror (ctx); char *sock = NULL;
+            printf ("s:"); if (!s) printf ("NULL"); else hx_print ((const unsigned char *) s, (long) strlen (s));
+            munge_ctx_get (ctx, MUNGE_OPT_SOCKET, &sock);
+            printf (":%d", (sock && !strcmp (sock, g_sock)) ? 1 : 0);
+        }
+        else printf ("bad-token");
+    }
+    printf ("\n");
+    for (i = 0; i < ns; i++) free (slots[i]);
+    munge_ctx_destroy (ctx);
+}
+
 int main (int argc, char **argv) {
     char *line; struct sockaddr_un a; pthread_t th; const char *dir = argc > 1 ? argv[1] : getenv ("HR_DIR");
     signal (SIGPIPE, SIG_IGN);
@@ -346,6 +409,7 @@ int main (int argc, char **argv) {
         else if (n >= 2 && !strcmp (w[0], "retry") && !strcmp (w[1], "reset")) { replay_fini (); replay_init (); puts ("ok"); }
         else if (n >= 3 && !strcmp (w[0], "retry") && !strcmp (w[1], "enc")) do_enc (w, n);
         else if (n >= 3 && !strcmp (w[0], "retry") && !strcmp (w[1], "dec")) do_dec (w, n);
+        else if (n >= 3 && !strcmp (w[0], "retry") && !strcmp (w[1], "ctxseq")) do_ctxseq (w, n);
         else if (n >= 2 && !strcmp (w[0], "kern")) do_kern (w, n);       /* translation validation of the retry kernels */
         else puts ("bad-op");
         fflush (stdout);
